@@ -130,6 +130,7 @@ package libinjection
 //@      (h.state == h.stateData ==> h.pos >= p + h.tokenLen + 3 && h.pos <= h.len && h.s[p + h.tokenLen] == '-' &&
 //@           (forall j in [p + h.tokenLen + 1, h.pos - 2): h.s[j] == 0) &&
 //@           (h.s[h.pos - 2] == '-' || h.s[h.pos - 2] == '!') && h.s[h.pos - 1] == '>')
+//@ spec noTermAt(h *h5State, i int) bool = forall z in [i + 1, h.len - 1): !(h.s[i] == '-' && (forall j in [i + 1, z): h.s[j] == 0) && (h.s[z] == '-' || h.s[z] == '!') && h.s[z+1] == '>')
 //@ func (*h5State).stateComment
 //@   rel on
 //@   requires wfM(h)
@@ -138,6 +139,7 @@ package libinjection
 //@   rank     1
 //@   ensures  result && wfH(h) && h.isClose == old(h.isClose)
 //@   ensures  [C17 C07] @terminator postComment(h, old(h.pos))
+//@   ensures  [C17 C07] @first_terminator (h.state == h.stateEOF ==> (forall i in [old(h.pos), h.len): noTermAt(h, i))) && (h.state == h.stateData ==> (forall i in [old(h.pos), old(h.pos) + h.tokenLen): noTermAt(h, i)))
 //@   loop 1 invariant old(h.pos) <= pos && pos <= h.len && unchangedH(h)
 //@   loop 1 decreases h.len - pos
 //@   loop 2 invariant 1 <= offset && pos + index + offset <= h.len && unchangedH(h)
@@ -145,6 +147,7 @@ package libinjection
 //@   loop 2 decreases h.len - (pos + index + offset)
 //@   cost     <= 3 * (cpos(h) - old(h.pos)) + 8
 //@   loop 1 invariant [C09] $cost <= 3 * (pos - old(h.pos)) + nulRun(h, pos)
+//@   loop 1 invariant [C17 C07] forall i in [old(h.pos), pos): noTermAt(h, i)
 //@   loop 2 invariant [C09] $cost <= 3 * (pos - old(h.pos)) + nulRun(h, pos) + index + 2 + (offset - 1) && nulRun(h, pos) <= index && 0 <= index && h.s[pos + index] == '-'
 
 //@ spec postDoctype(h *h5State, p int) bool = wfH0(h) && tokOK(h) && tokOff(h) == p && h.tokenType == html5TypeDocType &&
